@@ -48,7 +48,7 @@ def instances(tier, seed):
         out.append(("core", dict(kind="nest", inner="Float", outer=rng.choice(["Float", "Shaped", "Inexact", "Float32"]), s1=s1, s2=s2)))
     for c in ("Float", "Int8", "Shaped", "Bool"):
         for s in ("a b", "*v a", ""):
-            for form in ("union", "pipe", "tv-bound", "tv-constraints", "tv-free", "union-scalar", "union3"):
+            for form in ("union", "pipe", "tv-bound", "tv-constraints", "tv-free", "union-scalar", "union3", "union-disjoint"):
                 out.append(("core", dict(kind="arrtype", cat=c, s=s, form=form)))
     for c in CATS:
         for sc in SCALARS:
@@ -166,6 +166,14 @@ def scenario(inst, V):
             if ok:
                 for m, a in zip(members, typing.get_args(ann)):
                     probe_pair(V, a, cat[m, s], "arrtype-law", classes=(FakeArr, FakeArr2), form=form)
+        elif form == "union-disjoint":
+            # one member is an annotation whose dtypes have nothing in common with the outer
+            # category: D[Union[A, B], s] = Union[D[A, s], D[B, s]] and D[B, s] is an error
+            other = jt.Int if inst["cat"] in ("Float", "Bool") else jt.Bool
+            if inst["cat"] == "Shaped":
+                return dict(form=form)
+            outcome, ann = build(lambda: cat[Union[FakeArr, other[FakeArr, "c"]], s])
+            V.check("arrtype-law", outcome == "ValueError", outcome=outcome, form=form)
         elif form == "tv-bound":
             outcome, ann = build(lambda: cat[TypeVar("TB", bound=FakeArr), s])
             V.check("arrtype-law", outcome == "ok", outcome=outcome, form=form)
